@@ -84,7 +84,24 @@ pub fn gen_name(rng: &mut Rng, extremes: bool) -> String {
 
 pub fn gen_ud(rng: &mut Rng, extremes: bool) -> UserDataM {
     let text = if rng.chance(2, 3) { Some(gen_name(rng, extremes)) } else { None };
-    let color = if rng.chance(1, 2) { Some([rng.u8(), rng.u8(), rng.u8(), rng.u8()]) } else { None };
+    let color = if rng.chance(1, 2) {
+        // boundary colours without further draws: alpha 0 (a colour all the same) and 255 in 1/8 of the records each,
+        // black in 1/16
+        let mut c = [rng.u8(), rng.u8(), rng.u8(), rng.u8()];
+        match c[0] & 7 {
+            0 => c[3] = 0,
+            1 => c[3] = 255,
+            _ => {}
+        }
+        if c[1] & 15 == 0 {
+            c[0] = 0;
+            c[1] = 0;
+            c[2] = 0;
+        }
+        Some(c)
+    } else {
+        None
+    };
     UserDataM { text, color }
 }
 
